@@ -91,6 +91,28 @@ def score_residual(scn, gam, X, y, w):
 F_MASK = 'C01-masked-rows-not-stationary'
 
 
+def next_step_change(gam, scn):
+    """relative change of the coefficients under one more PIRLS step from the fitted state (a deep copy is refitted with max_iter = 1:
+    a fitted model with as many coefficients is warm-started from coef_)"""
+    import contextlib
+    import copy
+    import io
+    g2 = copy.deepcopy(gam)
+    g2.max_iter = 1
+    b = np.array(gam.coef_, dtype=float)
+    try:
+        with warnings.catch_warnings(), contextlib.redirect_stdout(io.StringIO()), np.errstate(all='ignore'):
+            warnings.simplefilter('ignore')
+            if scn['w'] is None:
+                g2.fit(scn['X'].copy(), scn['y'].copy())
+            else:
+                g2.fit(scn['X'].copy(), scn['y'].copy(), weights=scn['w'].copy())
+    except Exception:
+        return float('inf')
+    nb = np.array(g2.coef_, dtype=float)
+    return float(np.linalg.norm(nb - b) / (np.linalg.norm(nb) + 1e-300))
+
+
 def mask_witness(res):
     """deterministic witness of F_MASK (exact data shared with C12's frozen-fit witness): LogisticGAM, one unpenalised spline, rows replicated;
     fit stops with diff < tol while 23 of 77 rows are masked, among them y = 1 rows predicted at 1e-23"""
@@ -198,7 +220,12 @@ def run(res):
             r, keep = score_residual(scn, gam, X, y, w)
             res.case(('score', i))
             bound = 200 * scn['kw']['tol'] + 1e-6
-            if not (r <= bound):
+            if not (r <= bound) and gam.terms.hasconstraint and next_step_change(gam, scn) <= bound:
+                # the 1e9-weighted constraint matrix is rebuilt from the signs of coefficient differences; with (nearly) tied coefficients
+                # those signs are decided by rounding, so C(final coefficients) can differ from the C of the last step although one more
+                # PIRLS step (whose arithmetic is certified on the captured iterations) moves the coefficients by less than the bound
+                res.count('constrained fit: active set undecided at rounding level, fixed-point check passed')
+            elif not (r <= bound):
                 res.violations.append(dict(what='converged fit is not a stationary point: score-equation residual too large', finding=None,
                                            input=d, observed=dict(relative_residual=r), expected='<= %g' % bound))
             elif score_residual.masked and not (score_residual.full <= bound):
